@@ -91,3 +91,73 @@ def resolve_to_callers(model, path, origins, depth=3):
         if not done:
             out.add(o)
     return out
+
+
+def check_independent_optional_updates(ctx, rule, v, item_suffix, fields=None):
+    """An update handler of the form `if let Some(x) = x { config.x = x }` per optional request field: the assignment of
+    each field must be reachable with ONLY that field present (every other optional parameter None) -- nesting one field's
+    update inside another's `Some` arm makes a request that names only the inner field succeed without changing anything."""
+    from ..dataflow import field_sources, variant_excluded_edges
+    opt = [i for i in range(1, v.argc + 1) if v.local_ty(i).startswith("std::option::Option<")]
+    saves = storage_calls(v, item_suffix, ("save",))
+    if not saves or not opt:
+        ctx.missing(rule, "%s.save / optional parameters in %s" % (item_suffix.split("::")[-1], v.path))
+        return 0
+    n = 0
+    seen = set()
+    for sb, t in saves:
+        for b, i, s_ in v.iter_stmts():
+            F = v._named_fields(s_["lhs"]["p"])
+            if len(F) != 1 or (fields is not None and F[0] not in fields):
+                continue
+            base = v.origins_of_place({"l": s_["lhs"]["l"], "p": []}, at=(b, i))
+            if not any(o.kind == "load" and o.a.endswith(item_suffix) for o in base):
+                continue
+            if s_["rv"]["r"] != "use":
+                continue
+            src = v.origins_of_operand(s_["rv"]["op"], at=(b, i), taint=True)
+            own = {o.a for o in src if o.kind == "param" and o.a in opt}
+            if len(own) != 1 or (F[0], b) in seen:
+                continue
+            seen.add((F[0], b))
+            own = next(iter(own))
+            cut = set()
+            for q in opt:
+                if q == own:
+                    continue
+                pred = lambda os_, q=q: bool(os_) and all(o.kind == "param" and o.a == q for o in os_)
+                cut |= variant_excluded_edges(v, "option::Option", pred, "None")
+            reach = v.reachable(0, cut_edges=cut)
+            ok = b in reach and sb in v.reachable(b, cut_edges=cut)
+            n += 1
+            ctx.ob(rule, "%s|%s|updated-on-its-own" % (v.path, F[0]), ok,
+                   "with only the `%s` request field present the assignment %s reached and saved" % (F[0], "is" if ok else "is NOT"), v.where(b))
+    return n
+
+
+def check_migration_copy(ctx, model, rule, path, adt_suffix, new_fields):
+    """A storage migration that rebuilds records of type `adt_suffix`: every field of the rebuilt record is copied from the
+    SAME-NAMED field of the record being migrated, except the fields the migration introduces (`new_fields`, frozen list).
+    A ledger field reset to a constant, or filled from a differently named field, silently rewrites every stored ledger."""
+    fns = [path] + [x for x in model.fnsrc if x.startswith(path + "::{closure")]
+    n = 0
+    for q in fns:
+        if q not in model.fnsrc:
+            continue
+        v = model.view(q)
+        for b, i, s_ in v.iter_stmts():
+            rv = s_["rv"]
+            if rv["r"] != "agg" or not rv.get("adt", "").endswith(adt_suffix):
+                continue
+            n += 1
+            bad = []
+            for name, op in zip(rv["fields"], rv["ops"]):
+                if name in new_fields:
+                    continue
+                os_ = v.origins_of_operand(op, at=(b, i))
+                if not (os_ and all(o.proj and o.proj[-1] == name for o in os_)):
+                    bad.append("%s <- %s" % (name, sorted(map(repr, os_))))
+            ctx.ob(rule, "%s|%s|fields-copied-from-the-old-record" % (q, adt_suffix.split("::")[-1]), not bad,
+                   "rebuilt %s: %s" % (adt_suffix.split("::")[-1], "; ".join(bad) if bad else "every pre-existing field copied from the same-named old field"), v.where(b))
+    if n == 0:
+        ctx.missing(rule, "%s rebuilt in %s" % (adt_suffix, path))
